@@ -51,7 +51,8 @@ def stepLabel (op : String) (args : List String) : Option String :=
     -- a history of caller edits of the public `Labels` slice interleaved with
     -- `ToBytes` calls on ONE label set: `t` = ToBytes, `s:<i>:<name>` = in-place
     -- element write, `a:<name>` = append, `r:<names>` = replace the slice,
-    -- `d:<i>` = delete element i. Output: the bytes of every `t`, in order.
+    -- `d:<i>` = delete element i, `f:<hex>` = decode into the same set (method
+    -- FromBytes). Output: the bytes of every `t` and the verdict of every `f`, in order.
     let l0 ← (if h == "new" then some (Res.ok Labels.new) else (unhex h).map (fun b => Labels.fromBytes (some b)))
     match l0 with
     | .err => pure "err"
@@ -70,6 +71,14 @@ def stepLabel (op : String) (args : List String) : Option String :=
         | ["d", i] => do
           let i ← i.toNat?
           pure ({ l with labels := l.labels.eraseIdx i }, outs)
+        | ["f", hx] => do
+          -- the METHOD `(*Labels).FromBytes` on the populated set: on success both
+          -- fields are replaced, on failure the set is left as it was
+          let b ← (if hx == "-" then some [] else unhex hx)
+          match Labels.fromBytes (some b) with
+          | .ok l' => pure (l', outs ++ ["f-ok"])
+          | .err => pure (l, outs ++ ["f-err"])
+          | .panic => pure (l, outs ++ ["f-panic"])
         | _ => none
       let (_, outs) ← ops.foldl step (some (l0, []))
       pure ("ok " ++ " ".intercalate outs)
